@@ -81,7 +81,11 @@ func (c *Cluster) doExt(s Step, out *Outcome) bool {
 			r.Policies = append(r.Policies, structs.ACLRolePolicyLink{ID: p})
 		}
 		if s.Svc != "" {
-			r.ServiceIdentities = append(r.ServiceIdentities, &structs.ACLServiceIdentity{ServiceName: s.Svc})
+			si := &structs.ACLServiceIdentity{ServiceName: s.Svc}
+			if s.Dest != "" {
+				si.Datacenters = strings.Split(s.Dest, ",")
+			}
+			r.ServiceIdentities = append(r.ServiceIdentities, si)
 		}
 		r.EnterpriseMeta = *defaultEntMeta()
 		r.SetHash(true)
@@ -97,7 +101,11 @@ func (c *Cluster) doExt(s Step, out *Outcome) bool {
 			t.Roles = append(t.Roles, structs.ACLTokenRoleLink{ID: r})
 		}
 		if s.Svc != "" {
-			t.ServiceIdentities = append(t.ServiceIdentities, &structs.ACLServiceIdentity{ServiceName: s.Svc})
+			si := &structs.ACLServiceIdentity{ServiceName: s.Svc}
+			if s.Dest != "" {
+				si.Datacenters = strings.Split(s.Dest, ",")
+			}
+			t.ServiceIdentities = append(t.ServiceIdentities, si)
 		}
 		if s.Node != "" {
 			t.NodeIdentities = append(t.NodeIdentities, &structs.ACLNodeIdentity{NodeName: s.Node, Datacenter: "dc1"})
